@@ -102,6 +102,10 @@ pub enum CheckedMode {
     /// checked one block earlier (same parameters): the executor itself must
     /// notice an expiration that has passed meanwhile
     CheckedEarlier,
+    /// fully checked the way the transaction pool does it (basic checks,
+    /// signatures *and* predicates: all check bits set) under the block's
+    /// parameters; the executor must still compare the inputs with storage
+    FullyChecked,
     /// checked under the parameters that were in force *before* the last
     /// upgrade and labelled with that older version: must be re-checked
     CheckedOld,
@@ -130,6 +134,7 @@ pub enum Twist {
     DoubleSpend,
     MissingCoin,
     MismatchCoin,
+    MismatchMessage,
     Expired,
     Immature,
     GasHog,
@@ -882,6 +887,9 @@ impl ChainSession {
                     Twist::DoubleSpend,
                     Twist::MissingCoin,
                     Twist::MismatchCoin,
+                    Twist::MismatchCoin,
+                    Twist::MismatchMessage,
+                    Twist::MismatchMessage,
                     Twist::Expired,
                     Twist::Immature,
                     Twist::GasHog,
@@ -960,7 +968,14 @@ impl ChainSession {
         for p in out.iter_mut() {
             if p.checked == CheckedMode::Raw && !matches!(p.kind, TxKind::SourceMint) {
                 let r = rng.gen_range(0..100);
-                if p.twist == Twist::Expired && r < 60 {
+                let input_twist = matches!(
+                    p.twist,
+                    Twist::MissingCoin | Twist::MismatchCoin | Twist::MismatchMessage | Twist::DoubleSpend | Twist::DuplicateInBlock
+                );
+                if (input_twist && r < 65) || (p.uses_message && r < 45) || r < 12 {
+                    // what the pool hands over: signatures and predicates already verified
+                    p.checked = CheckedMode::FullyChecked;
+                } else if p.twist == Twist::Expired && r < 60 {
                     // valid when it was checked a block ago, expired now
                     p.checked = CheckedMode::CheckedEarlier;
                 } else if self.prev_params.is_some() && r < 30 {
@@ -1035,6 +1050,38 @@ impl ChainSession {
             }
             _ => {}
         }
+        if !funded && twist == Twist::MismatchMessage {
+            if let Some(m) = w.take_msg(self, rng, None) {
+                // the message stays unspent: the input claims other values than storage holds
+                w.used_msgs.remove(m.nonce());
+                let mut m2 = m.clone();
+                match rng.gen_range(0..5) {
+                    0 => m2.set_amount(m.amount() + 1),
+                    1 => m2.set_amount(m.amount().saturating_mul(10).max(7)),
+                    2 => m2.set_sender(Address::new(rng.r#gen())),
+                    3 => {
+                        let mut d2 = m.data().clone();
+                        if d2.is_empty() {
+                            d2.push(1);
+                        } else {
+                            d2[0] ^= 1;
+                        }
+                        m2.set_data(d2)
+                    }
+                    _ => {
+                        let other = self
+                            .owners
+                            .iter()
+                            .map(|o| o.address)
+                            .find(|a| a != m.recipient())
+                            .unwrap_or(*m.recipient());
+                        m2.set_recipient(other)
+                    }
+                }
+                d.add_message(self, &m2);
+                funded = m2.amount() >= min && m2.data().is_empty();
+            }
+        }
         if !funded && allow_message && chance(rng, 22) {
             if let Some(m) = w.take_msg(self, rng, None) {
                 d.add_message(self, &m);
@@ -1063,9 +1110,21 @@ impl ChainSession {
                         Twist::MismatchCoin => {
                             w.used_coins.remove(&u);
                             let mut c2 = c.clone();
-                            match rng.gen_range(0..3) {
+                            match rng.gen_range(0..6) {
                                 0 => c2.set_amount(c.amount() + 1),
-                                1 => c2.set_asset_id(self.assets[1]),
+                                1 => c2.set_amount(c.amount().saturating_mul(10)),
+                                2 => c2.set_amount(c.amount() - 1),
+                                3 => {
+                                    // claimed (and signed) by another known owner
+                                    let other = self
+                                        .owners
+                                        .iter()
+                                        .map(|o| o.address)
+                                        .find(|a| a != c.owner())
+                                        .unwrap_or(*c.owner());
+                                    c2.set_owner(other)
+                                }
+                                4 => c2.set_asset_id(self.assets[1]),
                                 _ => c2.set_tx_pointer(TxPointer::new(9u32.into(), 9)),
                             }
                             d.add_coin(self, u, &c2);
